@@ -104,7 +104,10 @@ class Result:
 
 
 class PE:
-    def __init__(self, body, call_model=None, max_states=200000, eq_ok=None):
+    def __init__(self, body, call_model=None, max_states=200000, eq_ok=None, inline=None, crate=None):
+        # inline: set of local callee def paths to evaluate with known arguments (needs crate)
+        self.inline = inline or set()
+        self.crate = crate
         self.body = body
         self.call_model = call_model
         self.max_states = max_states
@@ -270,6 +273,8 @@ class PE:
         if k == "discr":
             v = self.read_place(env, rv["place"])
             if v is not None and v[0] == "adt":
+                if rv["place"].get("ty") == "std::cmp::Ordering":
+                    return ("i", (v[1] - 1) & 0xFF)   # Less=-1, Equal=0, Greater=1 (i8 bit pattern)
                 return ("i", v[1])
             return UNK
         if k == "agg":
@@ -391,6 +396,31 @@ class PE:
         def a(i):
             return self._deref_all(env, argvals[i]) if i < len(argvals) else UNK
 
+        if self.crate is not None and c.resolved in self.inline:
+            cb = self.crate.bodies.get(c.resolved)
+            if cb is not None:
+                env2 = {}
+                for i, v in enumerate(argvals):
+                    if v is not None:
+                        # references into the caller's frame: pass the pointee as a constant reference
+                        if v[0] == "ref":
+                            inner = self._read(env, v[1], list(v[2]))
+                            v = ("rv", inner) if inner is not None else None
+                        if v is not None:
+                            env2[i + 1] = v
+                sub = PE(cb, None, max_states=20000, eq_ok=self.eq_ok, inline=self.inline, crate=self.crate)
+                rr = sub.run(env=env2)
+                vals = {v for _, v in rr.returns}
+                if len(vals) == 1:
+                    v = vals.pop()
+                    if v is not None and v[0] != "ref":
+                        return v
+            return UNK
+        if cal == "std::cmp::Ord::cmp":
+            x, y = a(0), a(1)
+            if x is not None and y is not None and x[0] in ("i", "b") and y[0] in ("i", "b"):
+                return ("adt", 0 if x[1] < y[1] else (1 if x[1] == y[1] else 2), ())
+            return UNK
         if cal == "std::ops::Try::branch":
             v = a(0)
             if v is None or v[0] != "adt":
